@@ -64,7 +64,7 @@ var (
 	treeHosts = []string{
 		"a.com", "ba.com", "xa.com", "b.a.com", "a.om", "a.m", "ab.com", "a.b.com", "com", "a.co.uk", "ba.co.uk",
 		"example.com", "xample.com", "ample.com", "foo.example.com", "example.com.", "a.com.",
-		"localhost", "a-b.com", "a_b.com", "xn--xample-9ua.com",
+		"localhost", "a-b.com", "a_b.com", "xn--xample-9ua.com", "xn--shop-.example.com", "xn--cdn-.a.com", "localhost.",
 	}
 	treeIPs     = []string{"127.0.0.1", "10.0.0.1", "1.1.1.1", "[::1]", "[2001:db8::1]", "[::]", "[1::8]"}
 	treeSchemes = []string{"https", "http", "ttp", "https-x", "a", "connector", "http+x"}
@@ -141,6 +141,14 @@ func nearMisses(pat string) []string {
 	}
 	if i := strings.IndexByte(base, '.'); i >= 0 {
 		hosts = append(hosts, base[i+1:], base[i:])
+	}
+	if i := strings.Index(base, "xn--"); i >= 0 { // the label with its ACE prefix (and a trailing hyphen) removed
+		rest := base[i+4:]
+		end := strings.IndexByte(rest, '.')
+		if end < 0 {
+			end = len(rest)
+		}
+		hosts = append(hosts, base[:i]+strings.TrimSuffix(rest[:end], "-")+rest[end:], "a."+base[:i]+strings.TrimSuffix(rest[:end], "-")+rest[end:])
 	}
 	if wild {
 		hosts = append(hosts, "foo.bar."+base, "xa."+base, "a-."+base, "*."+base, "a.."+base)
